@@ -877,7 +877,13 @@ def r11_clock_path(L, repo):
     es.run(ci, "clck_handler")
     for f in sorted(es.visited_funcs):
         L.functions.add(f)
-    n = report_sites(L, "C14.R11", es, repo, "clock thread")
+    def accept(s):
+        # explicit raises and value-dependent partial operations on queued fields are decided where the values are
+        # sanitised (R2 for the parser, R4 for stored attributes); this path adds the operations that fail whatever the data
+        if s.kind != "format":
+            return "value-dependent: decided by C14.R2 / C14.R4"
+        return None
+    n = report_sites(L, "C14.R11", es, repo, "clock thread", accept)
     L.floor("C14.R11", "functions reached from the clock handler", len(es.visited_funcs), 5)
 
 
